@@ -58,6 +58,37 @@ func pScalarNode(fd protoreflect.FieldDescriptor, v protoreflect.Value) pg.Node 
 	panic("pScalarNode")
 }
 
+// pNamePath rewrites the field-number steps of an id-addressed path into field-name steps.
+func pNamePath(md protoreflect.MessageDescriptor, path []pg.Path) []pg.Path {
+	out := make([]pg.Path, 0, len(path))
+	var cur protoreflect.FieldDescriptor
+	for _, st := range path {
+		if st.Type() == pg.PathFieldId {
+			if md == nil {
+				return path
+			}
+			fd := md.Fields().ByNumber(protoreflect.FieldNumber(st.Id()))
+			if fd == nil {
+				return path
+			}
+			out = append(out, pg.NewPathFieldName(string(fd.Name())))
+			cur = fd
+			md = nil
+			if fd.IsMap() {
+				if fd.MapValue().Kind() == protoreflect.MessageKind {
+					md = fd.MapValue().Message()
+				}
+			} else if fd.Kind() == protoreflect.MessageKind {
+				md = fd.Message()
+			}
+			continue
+		}
+		_ = cur
+		out = append(out, st)
+	}
+	return out
+}
+
 // ptarget is an editable position in the reference message.
 type ptarget struct {
 	path  []pg.Path
@@ -290,13 +321,21 @@ func runC10(c *h.Ctx) {
 				op = "unset"
 			}
 			cls := op + ":" + t.class()
+			byName := cs.R.Chance(30) // message fields addressed by name instead of number
+			if byName {
+				cs.Cover("edit_addressed_by_field_name")
+			}
 			var opErr error
 			var exist bool
 			switch {
 			case op == "unset":
 				log = append(log, fmt.Sprintf("unset %s (%s)", ppathStr(t.path), t.class()))
 				cs.Info("log", log)
-				opErr = root.UnsetByPath(t.path...)
+				ep := t.path
+				if byName {
+					ep = pNamePath(pc.Root, t.path)
+				}
+				opErr = root.UnsetByPath(ep...)
 				switch t.kind {
 				case "field":
 					t.owner.Clear(t.fd)
@@ -368,7 +407,11 @@ func runC10(c *h.Ctx) {
 				}
 				log = append(log, fmt.Sprintf("set %s (%s) := %v", ppathStr(t.path), t.class(), nv.Interface()))
 				cs.Info("log", log)
-				exist, opErr = root.SetByPath(node, t.path...)
+				ep := t.path
+				if byName {
+					ep = pNamePath(pc.Root, t.path)
+				}
+				exist, opErr = root.SetByPath(node, ep...)
 				_ = exist // proto3 zero values written explicitly count as existing: the flag is not part of the statement
 			}
 			cs.Info("log", log)
